@@ -11,7 +11,15 @@ L = PT = EXC = TP = RT = UT = None
 ASCII = values.Domain(list(range(1, 128)))
 BLANKS = values.Domain([32, 9])
 AFTER = values.Domain([32, 42, 35, 58])          # characters that cannot extend an encoding name: space * # :
-NAMES = [None, "utf-8", "latin-1", "ascii", "cp1251"]
+NAMES = [None, "utf-8", "latin-1", "ascii", "cp1251", "UTF-8", "nosuchcodec"]
+
+
+def canon(name):
+    """the codec a name denotes (None for a name no codec answers to)"""
+    try:
+        return codecs.lookup(name).name
+    except LookupError:
+        return None
 BODIES = {"utf-8": "café Ж", "latin-1": "café", "ascii": "cafe", "cp1251": "Жж"}
 NEWLINES = ["\n", "\r\n"]
 
@@ -59,6 +67,8 @@ def h_input(n1, nw, n2):
             res = tree
         except (EXC.CompileException, EXC.SyntaxException) as e:
             exc = e
+        except Exception as e:          # anything else escaping the lexer (engine exceptions are BaseExceptions)
+            exc = e
         return dict(bom=bom, name=name, known=known, actual=actual, nl=nl, first=first, sep=sep, lx=lx, tree=res, exc=exc, data=data, body=body,
                     h1=h1)
     return h
@@ -80,9 +90,16 @@ def on_input(p, r, exc, acc):
             acc.counts["skipped: prefix contains its own coding declaration"] += 1
             return
     acc.tags["comment" if recognized else "no-comment"] += 1
-    enc = r["name"] if recognized else (r["known"] or "utf-8")
+    enc = r["name"] if recognized else ("utf-8" if r["bom"] else (r["known"] or "utf-8"))     # a BOM outranks input_encoding
+    if canon(enc) is None:
+        # a name no codec answers to: a compile error of the template, like an undecodable body
+        acc.counts["unknown codec name"] += 1
+        acc.vcs += 1
+        if r["exc"] is None or not isinstance(r["exc"], EXC.CompileException):
+            acc.candidate(kind="no-compile-exception", input=cfg(m), detail="unknown codec %r: %s" % (enc, type(r["exc"]).__name__ if r["exc"] else "compiled"))
+        return
     if r["bom"]:
-        if recognized and r["name"] != "utf-8":
+        if recognized and canon(r["name"]) != "utf-8":
             expect = ("exc", "BOM contradicted by the comment")
         else:
             expect = None
@@ -138,7 +155,7 @@ def on_input(p, r, exc, acc):
                     acc.candidate(kind="wrong-decoding", input=cfg(mod), detail="content %r, expected body %r decoded as %s" % (
                         SymStr(out).concretize(mod), expect[1], enc))
                 acc.vcs += 1
-                if recognized and r["lx"].encoding != enc:
+                if recognized and canon(conc(r["lx"].encoding, m) if not isinstance(r["lx"].encoding, str) else r["lx"].encoding) != canon(enc):
                     acc.candidate(kind="wrong-encoding-recorded", input=cfg(m), detail="lexer.encoding %r expected %r" % (r["lx"].encoding, enc))
     real = realproc.call("decode_probe", raw, r["known"])
     acc.replayed += 1
@@ -387,15 +404,25 @@ elif "data" in CASE:
     print("template bytes:", data, "input_encoding:", CASE["input_encoding"])
     import re, codecs
     raw = data[3:] if data.startswith(codecs.BOM_UTF8) else data
-    first = raw.split(b"\\\\n")[0]
-    m = re.match(rb"#.*?coding[:=][ \\\\t]*([-\\\\w.]+)", first)
+    first = raw.split(b"\\n")[0]
+    m = re.match(rb"#.*?coding[:=][ \\t]*([-\\w.]+)", first)
     declared = m.group(1).decode("ascii") if m else None
     enc = declared or ("utf-8" if data.startswith(codecs.BOM_UTF8) else CASE["input_encoding"] or "utf-8")
     try:
         t = Template(data, input_encoding=CASE["input_encoding"]); out = t.render_unicode(); err = None
     except exceptions.CompileException as e:
         out, err = None, e
-    if data.startswith(codecs.BOM_UTF8) and declared and codecs.lookup(declared).name != "utf-8":
+    except Exception as e:
+        print("raised", type(e).__name__, e); out, err = None, None
+        bad = "%s escapes instead of a CompileException" % type(e).__name__
+    def canon(n):
+        try: return codecs.lookup(n).name
+        except LookupError: return None
+    if bad:
+        want = "CompileException"
+    elif canon(enc) is None:
+        want = "CompileException"
+    elif data.startswith(codecs.BOM_UTF8) and declared and canon(declared) != "utf-8":
         want = "CompileException"
     else:
         try:
@@ -404,10 +431,12 @@ elif "data" in CASE:
         except UnicodeDecodeError:
             want = "CompileException"
     print("expected:", repr(want), "got:", repr(out), err and type(err).__name__)
-    if want == "CompileException":
+    if bad:
+        pass
+    elif want == "CompileException":
         if err is None: bad = "no CompileException"
     elif err is not None: bad = "CompileException: %s" % err
-    elif out.replace("\\\\r\\\\n", "\\\\n") != want.replace("\\\\r\\\\n", "\\\\n"): bad = "decoded differently"
+    elif out.replace("\\r\\n", "\\n") != want.replace("\\r\\n", "\\n"): bad = "decoded differently"
 else:
     text, oe, au = CASE["text"], CASE["output_encoding"], CASE["as_unicode"]
     t = Template("A${x}B", default_filters=[], output_encoding=oe)
@@ -443,7 +472,8 @@ def run(check, tier):
         "(characters that cannot extend a name) are symbolic; BOM, NAME, input_encoding, the body's actual encoding and the newline "
         "kind are solver-chosen; the reference rule is comment > input_encoding > BOM/UTF-8 default",
         "symbolic bytes are ASCII, so decoding them is the identity in every ASCII-compatible codec; concrete byte runs are decoded by the real codec",
-        "a coding comment without a line terminator, and a BOM with a comment naming an alias of utf-8, are not asserted",
+        "a coding comment without a line terminator is not asserted; codec names are compared through codecs.lookup (UTF-8, utf8 and utf-8 "
+        "are one codec); a name no codec answers to must be a CompileException",
         "output side: real Template('A${x}B', default_filters=[]) rendered with a symbolic str over all Unicode scalar values; "
         "str.encode for ascii/latin-1/utf-8/utf-16(-le,-be)/utf-32-le is the engine's arithmetic model, checked against an independent reference decoder and, per path "
         "witness, against the real codecs")
